@@ -3,7 +3,7 @@ Reads /tmp/mut/results*.jsonl (tools/eval_round.py), /tmp/mut/tests_<name>.log (
 import json, os, shutil, subprocess, sys
 
 T = {  # name: (source dir, property, needs, caught_by, missed_at_first, note)
- "C01_A": ("/tmp/mut/C01/A", "C01", "two virtual-evidence queries with different likelihoods for one variable on ONE inference object", ["C16"], False, "C01 itself asks one question per scenario"),
+ "C01_A_OBSOLETE": ("/tmp/mut/C01/A_obsolete_see_seeded__obsolete", "C01", "two virtual-evidence queries with different likelihoods for one variable on ONE inference object", ["C16"], False, "C01 itself asks one question per scenario"),
  "C02_A": ("/tmp/mut/C02/A", "C02", "Markov network holding two value-equal factors on one scope", ["C14", "C02"], True, "C02 missed it on arrival (C14 caught it); mdup networks added to C02"),
  "C02_B": ("/tmp/mut/C02/B", "C02", "potentials of magnitude ~1e-9 (all message entries below the absolute tolerance of DiscreteFactor.__eq__)", ["C02", "C14"], False, ""),
  "C03_A": ("/tmp/mut/C03/A", "C03", "moral graph with a chordless cycle of length >= 5 (>= 6-node BN) and an elimination order walking along it", ["C02", "C14"], False, "the change is in triangulate(); C03 has no 5-cycle scenario"),
@@ -48,9 +48,25 @@ T = {  # name: (source dir, property, needs, caught_by, missed_at_first, note)
  "C07_wA": ("/tmp/mut2/C07/A", "C07", "integer state names that are a non-identity permutation of 0..k-1", ["C07"], False, ""),
  "C07_wB": ("/tmp/mut2/C07/B", "C07", "Markov network with variables whose only factor is one shared factor, or a second GibbsSampling built from the same model", ["C07"], True, "single-factor networks and second sampler added"),
  "C14_wA": ("/tmp/mut2/C14/A", "C14", "named states + a fill-in clique with a variable none of its assigned factors covers", ["C14"], False, "reverts repair f2edc2e"),
+ "C01_xA": ("/tmp/mut3/C01/A", "C01", ">= 2 query variables with an ancestor listed after its descendant and evidence on every path between them", ["C01"], False, ""),
+ "C01_xB": ("/tmp/mut3/C01/B", "C01", "joint=False, non-greedy order, >= 3 query variables whose remaining factors form a chain", ["C01"], True, "three-variable queries added"),
+ "C03_xA": ("/tmp/mut3/C03/A", "C03", "two virtual evidences on one variable, the second listing >= 3 states in a rotated order", ["C01", "C03"], False, "same slip as C16_r2wB"),
+ "C03_xB": ("/tmp/mut3/C03/B", "C03", "chordless cycle of length >= 5, belief-propagation MAP", ["C02"], False, "same family as C03_r2A"),
+ "C06_xA": ("/tmp/mut3/C06/A", "C06", "one BayesianEstimator, two BDeu estimates of equally shaped CPDs with different equivalent sample sizes", ["C06"], True, "per-node ESS added"),
+ "C06_xB": ("/tmp/mut3/C06/B", "C06", "fit_update for a node with >= 3 parents declared in an order that needs a 3-cycle to sort", ["C06"], True, "three-parent model added"),
+ "C10_xA": ("/tmp/mut3/C10/A", "C10", "BIC with a parent state declared through state_names but never observed", ["C10"], False, ""),
+ "C10_xB": ("/tmp/mut3/C10/B", "C10", "BDsScore wrapped in ScoreCache, whole-network score()", ["C10"], False, ""),
+ "C12_xA": ("/tmp/mut3/C12/A", "C12", "5-node ground truth where a pass orients through Meek rule 3 only", ["C12"], False, ""),
+ "C12_xB": ("/tmp/mut3/C12/B", "C12", "max_cond_vars equal to the size of a minimal separating set", ["C12"], False, ""),
+ "C13_xA": ("/tmp/mut3/C13/A", "C13", "latent variable on a directed path from X to Y, front-door functions", ["C13"], False, ""),
+ "C13_xB": ("/tmp/mut3/C13/B", "C13", "query with an explicit adjustment set, then a second query re-using the same do dict", ["C13"], False, ""),
+ "C18_xA": ("/tmp/mut3/C18/A", "C18", "entails / is_equivalent, then add_assertions with IndependenceAssertion objects, then query again", ["C18"], True, "object form of add_assertions added"),
+ "C18_xB": ("/tmp/mut3/C18/B", "C18", "joint distribution whose variable names contain one another (x1, x10)", ["C18"], True, "substring names added"),
+ "C20_xA": ("/tmp/mut3/C20/A", "C20", "node with >= 2 parents whose LinearGaussianCPD lists evidence in another order than the edges were added", ["C20"], False, ""),
+ "C20_xB": ("/tmp/mut3/C20/B", "C20", "canonical product / Gaussian product whose second operand lists its variables in another relative order", ["C20"], False, ""),
 }
 res = {}
-for f in ("/tmp/mut/results.jsonl", "/tmp/mut/results2.jsonl"):
+for f in ("/tmp/mut/results.jsonl", "/tmp/mut/results2.jsonl", "/tmp/mut/results3.jsonl"):
     if os.path.exists(f):
         for l in open(f):
             r = json.loads(l)
@@ -58,7 +74,7 @@ for f in ("/tmp/mut/results.jsonl", "/tmp/mut/results2.jsonl"):
 head = subprocess.run(["git", "-C", "/repo", "log", "--format=%h", "-1"], capture_output=True, text=True).stdout.strip()
 kept = []
 for name, (src, prop, needs, caught, missed, note) in T.items():
-    tname = name.replace("_w", "w_") if "_w" in name else name
+    tname = name.replace("_w", "w_") if "_w" in name else (name.replace("_x", "x_") if "_x" in name else name)
     tlog = f"/tmp/mut/tests_{tname}.log"
     tests = open(tlog).readline().strip() if os.path.exists(tlog) else "not run"
     if "not passing: 0" not in tests and "--force" not in sys.argv:
@@ -69,7 +85,9 @@ for name, (src, prop, needs, caught, missed, note) in T.items():
     if last.get("demo_clean") != 0 or last.get("demo_mut") != 1:
         print("SKIP (demo)", name, last.get("demo_clean"), last.get("demo_mut"))
         continue
-    dst = f"/verif/seeded/{name.replace('_', '_r2')}" if "_w" not in name else f"/verif/seeded/{name.replace('_w', '_r2w')}"
+    dst = f"/verif/seeded/{name.replace('_', '_r2')}"
+    if os.path.isdir(dst) and "--all" not in sys.argv:
+        continue   # kept in an earlier invocation
     os.makedirs(dst, exist_ok=True)
     for fn in ("demo.py", "notes.md"):
         if os.path.exists(os.path.join(src, fn)):
